@@ -203,7 +203,7 @@ def run_shard(ctx, spec):
                 for (v, u) in OPTS:
                     attach.call(f, b, m, cat, vets=v, underage=u)
                 attach.call(f, b.isoformat(), m, cat)
-                if b.year >= 1000:
+                if b.year >= 1000 and (b.toordinal() + m.toordinal()) % 3 == 0:
                     for txt in (b.isoformat() + 'T00:00:00', ' ' + b.isoformat() + ' ', b.strftime('%Y%m%d'), b.isoformat() + ' 00:00:00',
                                 b.isoformat() + '\n'):
                         attach.call(f, txt, m, cat)
